@@ -253,7 +253,17 @@ impl BuildTargetPlatform {
             // two from different sources could place the count outside the ID space, which is a
             // machine that cannot exist.
             if let Some(online_processors) = self.get_online_processor_ids() {
-                return *online_processors.maximum();
+                // The online mask is read after the processors were enumerated, so a processor
+                // that went offline in between is in our inventory but no longer in the mask.
+                // The ID space must still cover every processor we report.
+                let max_enumerated_id = self
+                    .get_all_processors_impl()
+                    .iter()
+                    .map(|p| p.id)
+                    .max()
+                    .expect("NonEmpty always has at least one item");
+
+                return (*online_processors.maximum()).max(max_enumerated_id);
             }
 
             // A kernel that publishes no readable mask at all leaves us with the machine we
